@@ -19,7 +19,7 @@ func init() {
 		Rule: "fault enumeration over lifecycle scenarios on an in-memory transport: configurations {tracking, client pings 0/20ms, plain/context-aware dialer, Connect/ConnectContext} x end causes {Close from 1, 3, 8 goroutines, " +
 			"EOF, read error, write error, context cancellation} x every unordered pair of causes fired from one barrier x traffic {idle, inbound backlog, outbound backlog by handler or user goroutines, handler on a gate / blocked in a send} " +
 			"x server {reading, not reading, bursts} x second Connect while connected (idle/busy), plus failing connects (no server, dial refused, refused-then-retry) and Close on an unconnected client. Counters and Connected() samples taken inside " +
-			"REGISTER/CONNECTED/DISCONNECTED handlers and return values are judged at quiescence (goroutine census shows no library goroutine). distinct_nontrivial = distinct (cause set, library goroutines blocked on a queue/gate/socket at teardown) fingerprints.",
+			"REGISTER/CONNECTED/DISCONNECTED handlers and return values are judged at quiescence (goroutine census shows no library goroutine). Poll mode: Connected() sampled 40k..400k times inside REGISTER/CONNECTED and by a user goroutine while 1..3 goroutines are being refused a second Connect. Loopback mode: event counts over real TCP sockets (see C07). distinct_nontrivial = distinct (cause set, library goroutines blocked on a queue/gate/socket at teardown) fingerprints.",
 		Assumptions: []string{
 			"when the reconnect is issued from inside the DISCONNECTED handler, a coincident public Close is not generated (it may legitimately close the new connection)",
 			"a disconnect that never completes is reported under C07; here it makes the scenario inconclusive",
@@ -30,6 +30,7 @@ func init() {
 				bs = append(bs, Batch{Name: fmt.Sprintf("grid-p%d", p), Args: map[string]string{"procs": fmt.Sprint(p), "mode": "grid"}, Race: true, Procs: p, Weight: min(p, 4)})
 			}
 			bs = append(bs, Batch{Name: "failures", Args: map[string]string{"mode": "failures", "procs": "4"}, Race: true, Procs: 4})
+			bs = append(bs, Batch{Name: "tcp-p4", Args: map[string]string{"procs": "4", "mode": "tcp"}, Race: true, Procs: 4, Weight: 2})
 			for _, p := range []int{2, 16} {
 				bs = append(bs, Batch{Name: fmt.Sprintf("poll-p%d", p), Args: map[string]string{"mode": "poll", "procs": fmt.Sprint(p)}, Race: p == 2, Procs: p, Weight: min(p, 4)})
 			}
@@ -160,6 +161,9 @@ func runC06(c *Ctx) {
 		return
 	case "poll":
 		runC06Poll(c)
+		return
+	case "tcp":
+		runC07TCP(c, "C06")
 		return
 	}
 	grid := c06Grid()
